@@ -53,9 +53,11 @@ def D(letter, variant=0):
     return S.make_dimension(letter, ("x1", "x2", "x3", "x4"), name="Other" + letter.upper())
 
 
-def mkset(letters):
+def mkset(letters, zero=False):
     from flodym import DimensionSet
 
+    if zero:  # every dimension has an EMPTY item list
+        return DimensionSet(dim_list=[S.make_dimension(l, ()) for l in letters])
     return DimensionSet(dim_list=[D(l) for l in letters])
 
 
@@ -63,8 +65,8 @@ def sig(ds):
     return [(d.letter, d.name, tuple(d.items)) for d in ds.dim_list]
 
 
-def msig(letters):
-    return [(l, S.NAMES[l], tuple(ITEMS[l])) for l in letters]
+def msig(letters, zero=False):
+    return [(l, S.NAMES[l], () if zero else tuple(ITEMS[l])) for l in letters]
 
 
 # ---- E1 -------------------------------------------------------------------------------------------
@@ -93,8 +95,10 @@ def run_pair_case(x, y, op, rhs_kind):
     def fail(kind, what):
         return "fail", dict(case=case, tags=dict(kind=kind, op=op), what=f"({x!r}) {op} ({y!r}) [{rhs_kind}]: {what}")
 
-    X = mkset(x)
-    if rhs_kind == "set-variant":
+    X = mkset(x, zero=(rhs_kind == "set-zero"))
+    if rhs_kind == "set-zero":
+        Y = mkset(y, zero=True)
+    elif rhs_kind == "set-variant":
         # the right set holds, for every shared letter, ANOTHER Dimension object (other name and items)
         from flodym import DimensionSet
 
@@ -114,7 +118,7 @@ def run_pair_case(x, y, op, rhs_kind):
         return "refused-as-required", None
     if st == "raised":
         return fail("raised", f"raised {got}")
-    wsig = msig(want)
+    wsig = msig(want, zero=(rhs_kind == "set-zero"))
     if rhs_kind == "set-variant":  # dimensions the result takes from the right set are the variant objects
         ysig = {d[0]: d for d in sig(Y)}
         wsig = [w if w[0] in x else ysig[w[0]] for w in wsig]
@@ -271,6 +275,8 @@ def e2_ops():
                 ops.append(dict(op="expand_by2", tgt=tgt, inplace=inplace, dim=dim, order="first"))
                 ops.append(dict(op="expand_by2", tgt=tgt, inplace=inplace, dim=dim, order="last"))
                 ops.append(dict(op="replace", tgt=tgt, inplace=inplace, dim=dim, key="first"))
+            # the replacement carries the NAME of the replaced dimension but the LETTER of another one (a clash)
+            ops.append(dict(op="replace", tgt=tgt, inplace=inplace, dim="clash-samename", key="first"))
             ops.append(dict(op="drop", tgt=tgt, inplace=inplace, key="first"))
             ops.append(dict(op="drop", tgt=tgt, inplace=inplace, key="last-by-name"))
             ops.append(dict(op="drop", tgt=tgt, inplace=inplace, key="absent"))
@@ -315,6 +321,10 @@ def pick_dim(kind, letters):
         if not letters:
             return D("a"), "a", False
         return D(letters[-1], 1), letters[-1], True
+    if kind == "clash-samename":
+        if not letters:
+            return D("a"), "a", False
+        return S.make_dimension(letters[-1], ("x1", "x2", "x3", "x4"), name=S.NAMES[letters[0]]), letters[-1], True
     if not letters:
         return D("a"), "a", False
     return D(letters[0]), letters[0], True
@@ -507,6 +517,8 @@ def run_unit(u):
                 rec(*run_pair_case(x, y, op, "set"), nt=bool(x or y))
                 if op in ("|", "&", "-", "union_with") and any(l in x for l in y):
                     rec(*run_pair_case(x, y, op, "set-variant"))
+                if op in ("+", "&", "|", "-") and (x or y):  # sets whose dimensions have no items are still sets of dimensions
+                    rec(*run_pair_case(x, y, op, "set-zero"))
                 if len(y) == 1 and op != "^":  # a single Dimension as right operand (accepted by the signatures) acts as the one-element set
                     rec(*run_pair_case(x, y, op, "dimension"))
         # '+' with a single Dimension as LEFT operand: a one-element set; overlap must be refused as well
